@@ -206,6 +206,29 @@ def yield_merge_preserved(old_text, new_text):
                     pairs[(t if t != "_" else "_", v)] += 1
         res.append((pairs, others))
     (p_old, o_old), (p_new, o_new) = res
+    # duplicate_yield: a task yielded twice is yielded once and the second name becomes an alias
+    # (`b = a`); accept that when `a` is bound to the very same task expression
+    missing = p_old - p_new
+    if missing and not (p_new - p_old):
+        alias_dumps = []
+        ok = True
+        for (t, v), cnt in missing.items():
+            found = False
+            for s2 in leaf_statements(new):
+                if isinstance(s2, ast.Assign) and len(s2.targets) == 1 and ast.unparse(s2.targets[0]) == t and not isinstance(s2.value, ast.Yield):
+                    src = ast.unparse(s2.value)
+                    if p_new.get((src, v), 0) > 0:
+                        found = True
+                        alias_dumps.append(ast.dump(s2))
+                        break
+            ok = ok and found
+        if ok:
+            o_new2 = list(o_new)
+            for d in alias_dumps:
+                if d in o_new2:
+                    o_new2.remove(d)
+            if o_old == o_new2:
+                return None
     if p_old != p_new:
         return "yield bindings changed: %s -> %s" % (sorted(p_old.elements())[:6], sorted(p_new.elements())[:6])
     if o_old != o_new:
